@@ -14,7 +14,7 @@ BUILDS = {'quick': [('k160', 'stone5'), ('k160', 'stone5', 'full', 'all_layouts'
           'thorough': [('k160', 'stone5'), ('b248', 'stone5'), ('k160', 'stone5', 'full', 'all_layouts', 'parser'),
                        ('b248', 'stone6', 'full', 'all_layouts', 'parser'), ('k160', 'stone6', 'full', 'all_layouts', 'parser')]}
 HX = None
-RULE = ('random op sequences (length <= 40 quick / <= 400 thorough) over {absorb felt, absorb vector (incl. empty), absorb u64 (incl. 0, '
+RULE = ('random op sequences (length <= 40 quick / <= 400 thorough) over {absorb felt, commitment through vector_commit / table_commit with friendly-layer counts 0 / 1 / h / h+1 / 100, absorb vector (incl. empty), absorb u64 (incl. 0, '
         'u64::MAX), squeeze, batch squeeze of 0..7} from random/edge digests and counters (incl. P-1 wrap); each with three auxiliary real-code runs: a strict '
         'prefix, the sequence with one absorbed value changed, the sequence with extra trailing messages. non-trivial = >= 2 ops with an '
         'absorb and a squeeze.')
@@ -29,17 +29,27 @@ def rand_ops(rng, n):
         k = rng.below(10)
         if k < 3: ops.append('r')
         elif k < 4: ops.append('R:' + format(rng.choice([0, 1, 2, 3, 7]), 'x'))
-        elif k < 6: ops.append('f:' + hexf(rng.edge_felt()))
+        elif k < 5: ops.append('f:' + hexf(rng.edge_felt()))
+        elif k < 6:
+            # a commitment sent through vector_commit / table_commit, for every kind of friendly-layer count (0 = all layers masked)
+            h = rng.choice([0, 1, 5, 20, 64]); nf = rng.choice([0, 0, 1, h, h + 1, 100])
+            root = rng.choice([rng.edge_felt(), rng.felt(), rng.bits(160), rng.bits(248)])
+            ops.append(f'c:{hexf(root)}:{h:x}:{nf:x}' if rng.chance(1, 2) else f't:{hexf(root)}:{rng.choice([1, 2, 7]):x}:{h:x}:{nf:x}')
         elif k < 8: ops.append('v:' + hexl([rng.edge_felt() for _ in range(rng.choice([0, 1, 2, 5, 17]))]))
         else: ops.append('u:' + format(rng.choice([0, 1, rng.bits(64), (1 << 64) - 1]), 'x'))
     return ops
 
 
-def mutate(rng, ops):
-    idx = [i for i, o in enumerate(ops) if o[0] in 'fu' or (o[0] == 'v' and o != 'v:-')]
+def mutate(rng, ops, force=None):
+    idx = [i for i, o in enumerate(ops) if o[0] in 'fuct' or (o[0] == 'v' and o != 'v:-')]
     if not idx: return None, None
-    i = rng.choice(idx); o = ops[i]
-    if o[0] == 'f': new = 'f:' + hexf((int(o[2:], 16) + 1) % P)
+    i = rng.choice(idx) if force is None else force[0]; o = ops[i]
+    # a changed message: +1, or a value that differs only ABOVE a digest width (what a truncating absorb would alias)
+    delta = rng.choice([1, 1, 1 << 160, 1 << 200, 1 << 248, 1 << 250])
+    if force is not None: delta = force[1]
+    if o[0] == 'f': new = 'f:' + hexf((int(o[2:], 16) + delta) % P)
+    elif o[0] in 'ct':
+        f = o[2:].split(':'); f[0] = hexf((int(f[0], 16) + delta) % P); new = o[:2] + ':'.join(f)
     elif o[0] == 'u': new = 'u:' + format((int(o[2:], 16) + 1) % (1 << 64), 'x')
     else:
         vs = [int(x, 16) for x in o[2:].split(',')]; j = rng.below(len(vs)); vs[j] = (vs[j] + 1) % P
@@ -47,9 +57,9 @@ def mutate(rng, ops):
     return i, ops[:i] + [new] + ops[i + 1:]
 
 
-def mk(rng, d, c, ops):
+def mk(rng, d, c, ops, force=None):
     pre = rng.below(len(ops) + 1)
-    mi, mops = mutate(rng, ops)
+    mi, mops = mutate(rng, ops, force)
     head = f'transcript {hexf(d)} {hexf(c)} '
     aux = [head + ' '.join(ops[:pre]) if pre else head.strip(), head + ' '.join(ops + rand_ops(rng, 3))]
     if mops: aux.append(head + ' '.join(mops))
@@ -107,6 +117,13 @@ def cases(rng, tier, feats, drv_ok):
     for a, b in [(1, 3), (2, 4), (3, 1), (5, 5)]:
         out.append(mk(rng, rng.felt(), 0, ['r'] * a + ['R:%x' % b] + ['r']))
         out.append(mk(rng, rng.felt(), 0, ['f:5'] + ['r'] * a + ['R:%x' % b, 'R:2'] + ['r']))
+    # every commitment entry point x every kind of friendly-layer count x a change above each digest width (deterministic)
+    for h in (0, 3, 20):
+        for nf in (0, 1, h, h + 1, 100):
+            for delta in (1, 1 << 160, 1 << 248, 1 << 250):
+                root = rng.bits(159)
+                out.append(mk(rng, rng.felt(), 0, ['r', f'c:{hexf(root)}:{h:x}:{nf:x}', 'r', 'r'], force=(1, delta)))
+                out.append(mk(rng, rng.felt(), 0, ['r', f't:{hexf(root)}:2:{h:x}:{nf:x}', 'r', 'r'], force=(1, delta)))
     return out
 
 
